@@ -348,6 +348,19 @@ func regionReturnsNilError(root *ssa.BasicBlock, fn *ssa.Function) *ssa.Return {
 			if isNilConst(r.Results[ei]) {
 				return r
 			}
+			// defer-spilled result cell: look at the value stored in this block
+			if u, ok := r.Results[ei].(*ssa.UnOp); ok {
+				if al, ok := u.X.(*ssa.Alloc); ok {
+					for k := len(b.Instrs) - 1; k >= 0; k-- {
+						if st, ok := b.Instrs[k].(*ssa.Store); ok && st.Addr == al {
+							if isNilConst(st.Val) {
+								return r
+							}
+							break
+						}
+					}
+				}
+			}
 		}
 	}
 	return nil
